@@ -149,7 +149,23 @@ def run(run):
                         for o in (mod, dem, mod2):
                             if hasattr(o, "reset_state"):
                                 o.reset_state()
-                        out = model(X) if iface == "hard" else model(X, noise_var=1.0)
+                        # the same frame through different call forms: float / integer message tensors, noise variance as float, fraction, 0-dim tensor
+                        var = fi % 4
+                        Xc = X.long() if var == 1 else (X.double() if var == 3 and iface == "hard" else X)
+                        nvc = (1.0, 0.25, torch.tensor(0.5), 4)[var]
+                        ev["call"] = "%s/%s" % (str(Xc.dtype).replace("torch.", ""), "-" if iface == "hard" else repr(nvc))
+                        try:
+                            out = model(Xc) if iface == "hard" else model(Xc, noise_var=nvc)
+                        except Exception:
+                            if Xc.dtype == X.dtype:
+                                raise
+                            # a link may reject a non-float message tensor (the property does not promise integer messages): only a wrong answer counts
+                            ev["call"] += " rejected -> float32"
+                            cap.clear()
+                            for o in (mod, dem, mod2):
+                                if hasattr(o, "reset_state"):
+                                    o.reset_state()
+                            out = model(X) if iface == "hard" else model(X, noise_var=nvc)
                         if isinstance(out, tuple):
                             out = out[0]
                         encw = cap["enc"].reshape(blocks, n)
